@@ -278,6 +278,51 @@ def _compute(ctx):
                     o = [ord_of(a) for a in e.args if ord_of(a) is not None]
                     need(fn, "load:" + outer_field(e.args[0]), bool(o) and has_acq(o[0]), o[0] if o else "?", "Acquire", e.loc(),
                          "the payload of the node reached through this pointer is read (or given to the predicate) afterwards")
+    # every node pointer is published with release and acquired before the node is dereferenced (mutation sweep 3: the CASes
+    # that swing head and tail, the load of tail in push): a node's fields are initialised by plain writes before it is linked,
+    # and whoever reaches it through head, tail or next reads them
+    privq = {nm for nm, b in prog.bodies.items() if nm.startswith(Q) and b.kind != "closure"
+             and nm.split("::")[-1] not in ("try_pop", "try_pop_if", "push", "new")}
+    exall = Exec(prog, inline=privq)
+    seen = set()
+    for fn in (Q + "push", Q + "try_pop", Q + "try_pop_if"):
+        bb = prog.body(fn)
+        r.functions.add(fn)
+        for p in exall.paths(bb):
+            evs = ra_events(p)
+            for (i, e, op) in evs:
+                fld = outer_field(e.args[0]) if e.args else None
+                if fld not in ("Queue.head", "Queue.tail", "Node.next"):
+                    continue
+                key = (e.body.name, e.bb, op)
+                if op.startswith("compare_exchange"):
+                    if key in seen:
+                        continue
+                    seen.add(key)
+                    o = [ord_of(a) for a in e.args if ord_of(a) is not None]
+                    need(e.body.name, "publish-cas:" + fld, bool(o) and has_rel(o[0]), o[0] if o else "?", "Release", e.loc(),
+                         "the pointer it installs is dereferenced by whoever loads it; the node's initialisation must happen before")
+                elif op == "load":
+                    used = False
+                    for q in p.events[i + 1:]:
+                        terms = list(q.args) if q.kind == "call" else [q.term] if q.kind == "cond" else [getattr(q, "value", None)] if q.kind == "store" else []
+                        for t in terms:
+                            if not isinstance(t, tuple):
+                                continue
+                            for x in subterms(t):
+                                if x[0] == "field" and len(x) > 2 and isinstance(x[2], tuple) and e.result in list(subterms(x[2])):
+                                    used = True
+                                    break
+                            if used:
+                                break
+                        if used:
+                            break
+                    if not used or key in seen:
+                        continue
+                    seen.add(key)
+                    o = [ord_of(a) for a in e.args if ord_of(a) is not None]
+                    need(e.body.name, "deref-load:" + fld, bool(o) and has_acq(o[0]), o[0] if o else "?", "Acquire", e.loc(),
+                         "the node reached through this pointer is dereferenced afterwards")
     r.require(len(r.instances), 4, "queue ordering obligations")
     # ---- list ---------------------------------------------------------------------------------------------------
     r = cur.use("ORD-LIST")
